@@ -383,6 +383,12 @@ func biasPropsJSON(r *Rng, name string, p *Problem) J {
 			pr["ordering"] = o
 		}
 		pr["randomSeed"] = r.Intn(1000)
+		if r.chance(0.1) {
+			delete(pr, "randomSeed")
+		}
+		if r.chance(0.05) {
+			delete(pr, "ratio")
+		}
 		return pr
 	case "fatigue":
 		pr := J{"randomSeed": r.Intn(1000)}
@@ -392,6 +398,16 @@ func biasPropsJSON(r *Rng, name string, p *Problem) J {
 		} else {
 			pr["function"] = "expFromZero"
 			pr["params"] = J{"alpha": float64(r.Intn(4)) / 8, "multiplier": float64(r.Intn(4)) / 2, "queryNumber": r.Intn(6)}
+		}
+		// optional keys are sometimes left out (the defaults are part of the behaviour, and a decoder that keeps
+		// state between requests shows only on an omitted key)
+		for _, k := range sortedJKeys(pr["params"].(J)) {
+			if r.chance(0.2) {
+				delete(pr["params"].(J), k)
+			}
+		}
+		if r.chance(0.1) {
+			delete(pr, "randomSeed")
 		}
 		r.boundingInto(pr)
 		return pr
@@ -421,8 +437,14 @@ func biasPropsJSON(r *Rng, name string, p *Problem) J {
 			aa = append(aa, a)
 		}
 		applier := J{"function": "inline", "params": J{"applyOnNotConsidered": r.chance(0.5)}}
+		if r.chance(0.35) {
+			delete(applier["params"].(J), "applyOnNotConsidered")
+		}
 		if r.chance(0.4) {
 			ap := J{"randomSeed": r.Intn(1000)}
+			if r.chance(0.2) {
+				delete(ap, "randomSeed")
+			}
 			r.refCritInto(ap)
 			applier = J{"function": "newCriterion", "params": ap}
 		}
@@ -486,7 +508,7 @@ func genRequest(r *Rng, o ReqOpts) *Req {
 	crit, known := problemJSON(p)
 	body := J{"preferenceFunction": method, "criteria": crit, "knownAlternatives": known,
 		"choseToMake": append([]string{}, p.Chosen...), "methodParameters": methodParamsJSON(r, method, p),
-		"biasApplyRandomSeed": r.Intn(100000)}
+		"biasApplyRandomSeed": []int{0, 1, 2, 3, 4, 5, 6, 7}[r.Intn(8)] * r.Intn(12500)}
 	pool := o.Biases
 	if pool == nil {
 		pool = biasNames
